@@ -140,13 +140,26 @@ class GhostSelf:
         w = object.__getattribute__(self, "w")
         if n in w.nets:
             return w.nets[n]
-        raise AttributeError(n)
+        # plain class-level data attributes of the real class (defaults such as `_stop_training = False`)
+        import inspect
+        from qucumber.nn_states.neural_state import NeuralStateBase
+        try:
+            v = inspect.getattr_static(NeuralStateBase, n)
+        except AttributeError:
+            raise AttributeError(n)
+        if callable(v) or isinstance(v, (property, staticmethod, classmethod)) or hasattr(v, "__get__"):
+            raise AttributeError(n)
+        return v
 
     def __setattr__(self, k, v):
         if k == "stop_training":
             object.__setattr__(self, k, v)
             return
+        if k == "w":
+            object.__setattr__(self, k, v)
+            return
         self.w.check(("C12", "C14"), "fit/does not write attributes of the state (%s)" % k, False)
+        object.__setattr__(self, k, v)
 
     def _shuffle_data(self, pos_batch_size, neg_batch_size, num_batches, train_samples, input_bases, z_samples):
         w = self.w
@@ -385,13 +398,17 @@ def _mk_cblist(w, cbs):
     return w.cblist
 
 
-def run_fit(vc, w, f, user_callbacks=("CB1",), time=False):
-    """One symbolic execution of fit in the ghost world; obligations are routed by property."""
+def run_fit(vc, w, f, user_callbacks=("CB1",), time=False, me=None, bases_obj=None):
+    """One symbolic execution of fit in the ghost world; obligations are routed by property.
+    `me` / `bases_obj` allow a second call on the same state object with the caller's same bases object."""
     import torch
-    me = GhostSelf(w)
+    if me is None:
+        me = GhostSelf(w)
+    else:
+        me.w = w
     data = GhostTensor(w, w.N, "data-tensor" if w.data_kind == "tensor" else "data-array")
     w.data_obj = data
-    w.bases_obj = GhostTensor(w, w.N, "bases") if w.with_bases else None
+    w.bases_obj = (bases_obj if bases_obj is not None else GhostTensor(w, w.N, "bases")) if w.with_bases else None
     w.z_obj = None
     w.train_obj = None
     w.optimizer_args = {"momentum": "M"}
